@@ -249,7 +249,7 @@ func init() {
 		pairs := [][]string{{"ptrace", "ptrace"}, {"ptrace", "unshare"}, {"ptrace", "containerA"}, {"unshare", "unshare"}, {"unshare", "containerA"}, {"containerA", "containerB"}}
 		// thorough: three concurrent runs, every merge of their 3+3+3 phases (1680 per triple)
 		triples := [][]string{{"ptrace", "unshare", "containerA"}, {"ptrace", "ptrace", "unshare"}, {"containerA", "containerB", "ptrace"}, {"unshare", "unshare", "containerA"}}
-		families := []string{"pair-merge", "same-environment", "signal-of-a-finished-run", "program-file-busy-through-another-launch", "descriptor-of-another-run"}
+		families := []string{"pair-merge", "same-environment", "signal-of-a-finished-run", "program-file-busy-through-another-launch", "descriptor-of-another-run", "two-tracers-one-string-read"}
 		if tier == "thorough" {
 			families = append(families, "triple-merge")
 		}
@@ -274,6 +274,10 @@ func init() {
 			}
 			if fam == "signal-of-a-finished-run" {
 				c17late(x)
+				return
+			}
+			if fam == "two-tracers-one-string-read" {
+				c17twoTracers(x)
 				return
 			}
 			if fam == "descriptor-of-another-run" {
